@@ -13,7 +13,7 @@ import collections
 import itertools
 
 from .cfg import CFG
-from .core import AnalysisError, walk_local, norm, is_name
+from .core import AnalysisError, walk_local, norm, is_name, ancestors as _ancestors
 
 
 def bool_flags(func):
@@ -45,6 +45,14 @@ def eval_test(t, fl):
         return {bool(t.value)}
     if isinstance(t, ast.UnaryOp) and isinstance(t.op, ast.Not):
         return {not v for v in eval_test(t.operand, fl)}
+    if isinstance(t, ast.Compare) and len(t.ops) == 1 and isinstance(t.left, ast.Name) and fl.get(t.left.id) is not None and fl.get("@idx:" + t.left.id) \
+            and isinstance(t.comparators[0], ast.Constant) and isinstance(t.comparators[0].value, int):
+        # index variable of `for i, x in enumerate(..)`: fl[i] is "i > 0"
+        pos, c, op = fl[t.left.id], t.comparators[0].value, type(t.ops[0])
+        table = {(ast.Gt, 0): pos, (ast.NotEq, 0): pos, (ast.GtE, 1): pos, (ast.Eq, 0): not pos, (ast.Lt, 1): not pos, (ast.LtE, 0): not pos}
+        if (op, c) in table:
+            return {table[(op, c)]}
+        return {True, False}
     if isinstance(t, ast.BoolOp):
         vals = [eval_test(v, fl) for v in t.values]
         out = set()
@@ -81,8 +89,21 @@ def check(func, classify, spec, start, accepting, erase=(), buffers=None, max_st
                 flush_ifs[id(n)] = (b, False)
 
     def fkey(fl):
-        return tuple(sorted(fl.items()))
-    init = (g.entry.id, fkey({f: None for f in flags}), None, start)
+        return tuple(sorted(fl.items(), key=lambda kv: kv[0]))
+    # index variables of `for i, x in enumerate(<iterable>)` loops: tracked as the flag "i > 0" (False in the first iteration)
+    idx_loops = {}
+    for n_ in walk_local(func):
+        if isinstance(n_, ast.For) and isinstance(n_.target, ast.Tuple) and len(n_.target.elts) == 2 and isinstance(n_.target.elts[0], ast.Name) \
+                and isinstance(n_.iter, ast.Call) and isinstance(n_.iter.func, ast.Name) and n_.iter.func.id == "enumerate" and len(n_.iter.args) == 1 and not n_.iter.keywords:
+            nm_ = n_.target.elts[0].id
+            stores = [x for x in walk_local(func) if isinstance(x, ast.Name) and x.id == nm_ and isinstance(x.ctx, ast.Store)]
+            if len(stores) == 1:
+                idx_loops[id(n_)] = nm_
+    init_flags = {f: None for f in flags}
+    for nm_ in idx_loops.values():
+        init_flags[nm_] = None
+        init_flags["@idx:" + nm_] = True
+    init = (g.entry.id, fkey(init_flags), None, start)
     seen = {init: None}
     work = collections.deque([init])
 
@@ -186,6 +207,11 @@ def check(func, classify, spec, start, accepting, erase=(), buffers=None, max_st
                 q2 = spec[(q2, L)]
             if bad:
                 continue
+            if s.kind == "for" and id(s.ast) in idx_loops:
+                # arriving at the loop head: from inside its body = a later iteration (i > 0), from outside = the first one
+                inside = n is not s and any(a is s.ast for a in _ancestors(n.ast))
+                fl2 = dict(fl2)
+                fl2[idx_loops[id(s.ast)]] = inside
             nx = (s.id, fkey(fl2), mode2, q2)
             if nx not in seen:
                 seen[nx] = cur
